@@ -8,9 +8,9 @@ mkdir -p $out
 cp $wt/seed_out/patch.diff $wt/seed_out/demo.py $out/ 2>/dev/null
 cp $wt/seed_out/meta.json $out/meta.agent.json 2>/dev/null
 cd $wt
-git stash -q
+git apply -R seed_out/patch.diff || { echo "cannot reverse patch in worktree"; exit 2; }
 PYTHONPATH=$wt/src timeout 600 /venv/bin/python seed_out/demo.py > $out/demo_without.log 2>&1; rc0=$?
-git stash pop -q
+git apply seed_out/patch.diff
 PYTHONPATH=$wt/src timeout 600 /venv/bin/python seed_out/demo.py > $out/demo_with.log 2>&1; rc1=$?
 echo "demo without patch: rc=$rc0 ; with patch: rc=$rc1"
 cd /verif
